@@ -74,10 +74,23 @@ def build(repo, findings):
     g.before(r'^\s*let trimmed_len = ', 'proof { if subst_output_spec(s@) is Ok { let v = subst_output_spec(s@)->Ok_0; if !v.contains(\'\\0\') { lemma_without_nul_id(v); } } lemma_boundary_unique_all(cmd_output@); }', fn_name=fn, optional=True)
     g.after_line(r'^\s*let trimmed_len = ', "proof { assert(['\\n']@ =~= seq!['\\n']); }", fn_name=fn, optional=True)
     u.add(g)
+    # ---- the double-quoted arm: flag set while the pieces are processed, restored on every exit, result unsplittable
+    ex.require_text(r'\n\s*in_double_quotes: bool,', 'projected field WordExpander.in_double_quotes')
+    fn = 'double_quoted_arm'
+    g = ex.block_slice(r'^\s*\| brush_parser::word::WordPiece::GettextDoubleQuotedSequence\(pieces\) => \{$',
+                       'fn double_quoted_arm(self_: &mut WordExpander, pieces: Vec<WordPieceWithSource>) -> %s' % RET, fn, within_fn='expand_word_piece', wrap=('Ok({', '})'))
+    g.r1().r3()
+    g.resub(r'\bself\b', 'self_', 'R6', 'slice wrapper: self -> self_', count=None)
+    g.sig(fn, ret='res', ensures=[
+        C('C04,C05 quote-state-restored-on-every-exit-of-a-double-quoted-sequence', 'final(self_).in_double_quotes == old(self_).in_double_quotes'),
+        C('C04,C05 double-quoted-sequence-yields-unsplittable-pieces-and-at-least-one-field-when-empty', 'res is Ok ==> all_unsplittable(res->Ok_0.fields@) && (pieces@.len() == 0 ==> res->Ok_0.fields@.len() > 0)'),
+    ])
+    g.before(r'^\s*Expansion \{$', 'proof { assert forall|i: int, j: int| 0 <= i < fields@.len() && 0 <= j < fields@[i].0@.len() implies (#[trigger] fields@[i].0@[j]) is Unsplittable by { } }', fn_name=fn, optional=True)
+    u.add(g)
     u.raw(FOOTER)
-    u.assume('external_body', 'expand_tilde_expression is a stub with an uninterpreted result; TildeExpr, Error opaque; vx_owned (R17)')
+    u.assume('external_body', 'process_double_quoted_pieces is a stub (flag left as found, unsplittable pieces only — ASSUMED); expand_tilde_expression is a stub with an uninterpreted result; TildeExpr, Error opaque; vx_owned (R17)')
     u.assume('uninterp', 'tilde_spec')
     u.assume('axiom', 'String::to_string() returns an equal string')
-    u.assume('stub', 'the other arms of expand_word_piece (double-quoted sequences, parameter/command/arithmetic expansions, escape sequences) and the conversion of pieces into glob patterns are NOT covered by this unit')
-    u.expected_min_fns = 8
+    u.assume('stub', 'the other arms of expand_word_piece (parameter/arithmetic expansions, escape sequences), process_double_quoted_pieces and the conversion of pieces into glob patterns are NOT covered by this unit')
+    u.expected_min_fns = 9
     return u
